@@ -46,6 +46,9 @@ type hubArena struct {
 	point    string
 	kind     string
 	settled  map[channel.ID][]byte // virtual channel -> encoding of the final state of a countersigned settlement
+	// subFunding: the next update with a longer locked list is a sub-channel funding next to the
+	// virtual channel's sub-allocation; judged for "all other sub-allocations stay as they are"
+	subFunding bool
 }
 
 func verifyAll(p *channel.Params, st *channel.State, sigs []wallet.Sig) bool {
@@ -239,7 +242,18 @@ func newHubArena(rng *rand.Rand) (*hubArena, string) {
 		a.mu.Lock()
 		tp, known := a.props[string(gen.EncodeState(st))]
 		point, kind := a.point, a.kind
+		subFunding := a.subFunding
 		a.mu.Unlock()
+		if subFunding && !known {
+			ok, why := true, ""
+			if len(st.Locked) != len(cur.Locked)+1 || !lockedEqual(cur.Locked, st.Locked[:len(cur.Locked)]) {
+				ok, why = false, "the sub-channel funding update also changes another sub-allocation (amounts, index map or order): here the index map of the virtual channel routed over this ledger channel"
+			}
+			a.mu.Lock()
+			a.verdicts = append(a.verdicts, verdict{ok, why, cur, st, int(tp.actor), point, kind})
+			a.mu.Unlock()
+			return
+		}
 		if a.mvV != nil && e.ID != a.mvV.ID() && !strings.HasPrefix(kind, "both-participants") {
 			kind = "honest-proposal-of-the-other-participant"
 		}
@@ -665,6 +679,76 @@ func hubHistory(s sink.Sink, em *childrun.Emitter, rng *rand.Rand, sample bool) 
 		return n
 	}
 	s.Count("virtual_channels_funded_honestly", 1)
+
+	// --- a sub-channel opened by the adversary next to the virtual channel's sub-allocation: its
+	// funding update is exact but also rewrites the virtual channel's index map
+	if rng.Intn(5) == 0 {
+		name := "sub-channel-funding-rewrites-the-index-map-of-the-virtual-channel"
+		point := "sub-channel-funding-next-to-a-virtual-channel"
+		a.setCase(point, name)
+		em.Progress(point + " " + name)
+		a.mu.Lock()
+		a.subFunding = true
+		a.mu.Unlock()
+		nLocked := len(a.mvV.State().Locked)
+		var fmu sync.Mutex
+		fired := false
+		control := rng.Intn(4) == 0
+		a.w.Bus.SetRewriter(a.M.Wire, func(e *wire.Envelope) []*wire.Envelope {
+			m, ok := e.Msg.(*client.ChannelUpdateMsg)
+			if !ok || m.State == nil || len(m.State.Locked) <= nLocked {
+				return []*wire.Envelope{e}
+			}
+			fmu.Lock()
+			defer fmu.Unlock()
+			if fired {
+				return []*wire.Envelope{e}
+			}
+			fired = true
+			if control {
+				return []*wire.Envelope{e}
+			}
+			ns := m.State.Clone()
+			for i := range ns.Locked {
+				if len(ns.Locked[i].IndexMap) == 2 {
+					ns.Locked[i].IndexMap = []channel.Index{0, 0}
+				}
+			}
+			sig, err := channel.Sign(a.M.Acc, ns, gen.B)
+			if err != nil {
+				return []*wire.Envelope{e}
+			}
+			return []*wire.Envelope{{Sender: e.Sender, Recipient: e.Recipient, Msg: &client.ChannelUpdateMsg{ChannelUpdate: client.ChannelUpdate{State: ns, ActorIdx: m.ActorIdx}, Sig: sig}}}
+		})
+		init := make([][]int64, nAssets)
+		for ai := range init {
+			init[ai] = []int64{1 + int64(rng.Intn(3)), 1 + int64(rng.Intn(3))}
+		}
+		if !control {
+			a.M.Timeout = 1500 * time.Millisecond
+			name2 := name
+			_ = name2
+		} else {
+			a.setCase(point, "control-honest-sub-channel-funding")
+		}
+		_, _ = a.M.OpenSubChannel(a.mvM, init, 10)
+		a.M.Timeout = 30 * time.Second
+		a.w.Bus.SetRewriter(a.M.Wire, nil)
+		fmu.Lock()
+		f := fired
+		fmu.Unlock()
+		if f {
+			n++
+			s.Case(point+"|"+name, !control)
+			s.Seen("crafted_kinds", "sub-channel-funding/"+name)
+			s.Seen("life_points", point)
+			report()
+		}
+		a.mu.Lock()
+		a.subFunding = false
+		a.mu.Unlock()
+		return n
+	}
 
 	// --- settlement
 	for k := rng.Intn(3); k > 0; k-- {
